@@ -1121,6 +1121,7 @@ def _run(res, tier, seed, proofs_ok):
     c02_text.run_ties(res, rng, quick)
     c02_text.run_link_tie(res, rng, quick)
     c02_text.run_body_tie(res, rng, quick)
+    c02_text.run_body_tr_tie(res, rng, quick)
 
     # ---- 5. the Spec against the Python references ----
     spec_ties(res, rng, meta, quick)
